@@ -8,6 +8,7 @@ cd "$wt" || exit 2
 git checkout -q -- . 2>/dev/null
 git apply --check "$sd/patch.diff" || { echo "CONFIRM $sd patch-does-not-apply"; exit 1; }
 git apply "$sd/patch.diff"
+rm -rf tests/seed_demo_* tests/seed2_demo_*
 suite=$(cargo nextest run --workspace --no-fail-fast --test-threads 8 --offline 2>&1 | grep -E "^\s+Summary" | tail -1)
 bash "$sd/run_demo.sh" > "$sd/confirm_with_patch.log" 2>&1; with=$?
 git apply -R "$sd/patch.diff"
